@@ -115,7 +115,9 @@ pub fn start_stream_parser(log: &mut Log, im: &mut Impl, b: usize, mc: usize, id
     let la = lookahead.len().min(free.saturating_sub(pre.len()));
     pre.extend(&lookahead[..la]);
     ex(log, im, &format!("req.feed {}", hexd(&pre)));
-    let o = ex(log, im, "req.into_stream");
+    // without look-ahead the stream parser may as well be built by the public constructor stream::Parser::new
+    let via_new = la == 0 && (id as usize + b + mc) % 4 == 0;
+    let o = if via_new { let o = ex(log, im, &format!("req.to_stream_new {b} {mc}")); match o.find(" left=") { Some(i) => o[..i].to_string(), None => o } } else { ex(log, im, "req.into_stream") };
     let mut d = Drv::from_into_stream(&o, prop)?;
     d.calls = la;   // number of look-ahead bytes consumed from the wire
     Some(d)
@@ -586,7 +588,7 @@ pub fn run_c05(ctx: &mut Ctx) {
                 free = field(&o, "free").and_then(|x| x.parse().ok()).unwrap_or(0);
             }
             let peek = ex(&mut log, &mut im, "req.peek");
-            let exp_core = format!("ok id={} role={} flags={} env={} ", r.pre.id, r.pre.role, r.pre.flags, env_fmt(&spec_env(&r.pre.pairs)));
+            let exp_core = format!("ok id={} role={} flags={} env={} acc=ok ", r.pre.id, r.pre.role, r.pre.flags, env_fmt(&spec_env(&r.pre.pairs)));
             if !peek.starts_with(&exp_core) { or.fail(format!("request {} of {k}: parsed `{}`, sent `{}`", ri + 1, &peek[..peek.len().min(120)], &exp_core[..exp_core.len().min(120)]), log.replay_block(), "C05:request".into()); okcase = false; break; }
             let o = ex(&mut log, &mut im, "req.into_stream");
             let Some(mut d) = Drv::from_into_stream(&o, "C05") else { or.fail(format!("into_stream_parser failed: {o}"), log.replay_block(), "C05:into-stream".into()); okcase = false; break; };
@@ -613,6 +615,13 @@ pub fn run_c05(ctx: &mut Ctx) {
             if !okcase { break; }
             // ---- close: ignore the rest, run to a record boundary, hand the buffer back
             d.simple(&mut log, &mut im, "str.set_stream none");
+            // the hand-off attempted too early: off a record boundary it must be refused (Interrupted), never performed
+            if !d.boundary && rng.chance(1, 12) {
+                let o = ex(&mut log, &mut im, "str.into_req");
+                if o != "err interrupted" { or.fail(format!("into_request_parser off a record boundary returned `{}`", &o[..o.len().min(80)]), log.replay_block(), "C05:into-req-off-boundary".into()); }
+                or.count("into_req_off_boundary");
+                break;
+            }
             let mut guard = 0;
             loop {
                 guard += 1; if guard > 100_000 { or.fail("draining to a record boundary does not terminate".into(), log.replay_block(), "C05:boundary".into()); okcase = false; break; }
